@@ -345,6 +345,46 @@ def artim_next_to_other_association(dt: int, b_first: bool) -> bool:
     return ok
 
 
+FLOOD = (1, 2, 31, 32, 33, 34, 48, 100)
+
+
+@cond(bounds='the association ends while indications pile up unread: the peer pipelines n complete C-ECHO-RQ messages, n from {1, 2, '
+             '31, 32, 33, 34, 48, 100} by symbolic selector, the local user reads none of them; then the peer closes / resets '
+             'the connection / sends an A-ABORT and closes (symbolic choice) - or nothing more happens and the provider is '
+             'asked to stop at a symbolic later iteration: the loop takes every message, is never parked behind its own '
+             'indications, ends idle with the transport closed, has told the user, and a stop request completes', timeout=240)
+def ends_behind_unread_indications(sel: int, how: int, k: int) -> bool:
+    """
+    pre: 0 <= sel <= 7 and 0 <= how <= 3 and 0 <= k <= 3
+    post: _
+    """
+    from vt import sim
+    n = FLOOD[pick(sel, 0, 7)]
+    how = pick(how, 0, 3)
+    k = pick(k, 0, 3)
+    with sim._no_tracing():
+        acc, turns = CORPUS['acc_echo_release']
+        echo = turns[2][1]
+        flood = echo * n
+        tail = [[('close', None, 1)], [('reset', None, 1)],
+                [('peer', pdu.AAbortPDU(0, 0).encode(), 1), ('close', None, 1)], []][how]
+        conv = prov.Conversation(list(turns[:2]) + [('peer', flood, 1)] + tail, acceptor=acc, budget=400,
+                                 segmenter=lambda i, raw: [raw])
+        if how == 3:
+            # nobody ends the association: the stop request comes k iterations after the flood has been taken in
+            conv.kill_at = 2 + n + 1 + k
+        tr = conv.run()
+        n_dimse = len([i for i in tr.indications if i[0] == 'dimse'])
+        no_hang = tr.err is None or not tr.err.startswith('hang')
+        if how == 3:
+            ok = no_hang and not tr.over_budget and tr.exit_set and n_dimse == n and tr.steps <= conv.kill_at + 2
+        else:
+            ok = ended_cleanly(tr, conv) and n_dimse == n
+    ends_behind_unread_indications.last = (n, how, repr(tr))
+    deep(ok and n == 33 and how == 2)
+    return ok
+
+
 SILENT_AT = ['no_reply_to_request', 'no_reply_to_echo', 'no_reply_to_release']
 
 
@@ -407,6 +447,11 @@ def stop_completes_with_silent_peer(body_raises: bool, timeout_s: int, dt: int) 
 
 
 def explain(cname, args, famv):
+    if cname == 'ends_behind_unread_indications':
+        ends_behind_unread_indications(**args)
+        return '%d unread messages, then %s: %s' % (ends_behind_unread_indications.last[0],
+                                                    ('close', 'reset', 'A-ABORT + close', 'stop request')[ends_behind_unread_indications.last[1]],
+                                                    ends_behind_unread_indications.last[2])
     if cname == 'stop_completes_with_silent_peer':
         stop_completes_with_silent_peer(**args)
         return 'peer silent: %s; outcome=%r kill() returned=%r loop error=%r stop() polled %d times, provider state Sta%d' % (
